@@ -17,6 +17,7 @@ type nOpts struct {
 	Focus     string
 	Kinds     []string // candidate kinds
 	MaxCands  int
+	Scenarios bool // also generate the scripted multi-step scenarios (early message for an upcoming view, then that view is entered, prepared and left)
 	Mutations []string // restrict the mutation catalogue (nil = all)
 }
 
@@ -78,6 +79,19 @@ func drawNCase(t *rapid.T, o nOpts) sim.NCase {
 			c.Steps = append(c.Steps, sim.NStep{K: "prepares", View: view, A: rapid.IntRange(0, 3).Draw(t, "partial")})
 		}
 	}
+	if o.Scenarios && rapid.IntRange(0, 3).Draw(t, "scenario?") == 0 {
+		// scenario: a message for an upcoming view arrives early, then the node enters that view by a valid NEW_VIEW, gets prepared
+		// there and leaves it by timeout (what it then emits is judged by the C09 / C11 monitors)
+		kind := rapid.SampledFrom([]string{"PL", "PL", "P", "C"}).Draw(t, "early-kind")
+		a := rapid.IntRange(0, 1).Draw(t, "early-a")
+		c.Steps = append(c.Steps, sim.NStep{K: "cand", Kind: kind, From: rapid.IntRange(0, 8).Draw(t, "from"), A: a})
+		target := view + 1 + uint64(a)
+		c.Steps = append(c.Steps, sim.NStep{K: "propose", View: target, A: 0})
+		c.Steps = append(c.Steps, sim.NStep{K: "prepares", View: target})
+		for k := rapid.IntRange(1, 2).Draw(t, "early-timeouts"); k > 0; k-- {
+			c.Steps = append(c.Steps, sim.NStep{K: "timeout"})
+		}
+	}
 	for i := rapid.IntRange(1, o.MaxCands).Draw(t, "ncand"); i > 0; i-- {
 		c.Steps = append(c.Steps, sim.NStep{K: "cand", Kind: rapid.SampledFrom(o.Kinds).Draw(t, "kind"), From: rapid.IntRange(0, 8).Draw(t, "from"),
 			A: rapid.IntRange(0, 15).Draw(t, "a"), B: rapid.IntRange(0, 63).Draw(t, "b"), Muts: drawMutations(t, o)})
@@ -134,12 +148,12 @@ func TestC07N(t *testing.T) {
 
 // C08 — only authentic, in-committee, role- and height-correct messages change state (engine N).
 func TestC08N(t *testing.T) {
-	nProperty(t, nOpts{Focus: "C08", Kinds: []string{"PP", "P", "P", "C", "C", "VC", "VC"}, MaxCands: 4})
+	nProperty(t, nOpts{Focus: "C08", Kinds: []string{"PP", "P", "P", "C", "C", "VC", "VC", "PL"}, MaxCands: 4, Scenarios: true})
 }
 
 // C09 — engine N scenarios: the node as voter (prepared, then timeouts) and as collector of generated vote sets.
 func TestC09N(t *testing.T) {
-	nProperty(t, nOpts{Focus: "C09", Kinds: []string{"VC", "VC", "VC", "P", "PP"}, MaxCands: 8,
+	nProperty(t, nOpts{Focus: "C09", Kinds: []string{"VC", "VC", "VC", "P", "PP", "PL"}, MaxCands: 8, Scenarios: true,
 		Mutations: []string{"block", "proof-drop", "proof-view", "proof-hash", "proof-below-quorum", "proof-add", "view", "sender", "sig", "proof-outsider-preparer"}})
 }
 
